@@ -53,7 +53,7 @@ func runLBMix(x *X) {
 	o.fullChain = c.Intn(2, "chain") == 1
 	s := x.StartMicro()
 	net := newStubNet(x)
-	hostOf := func(i int) string { return fmt.Sprintf("10.12.0.%d:80", i+1) }
+	hostOf := func(i int) string { return x.BackendHost(12, i+1) }
 	for i := 0; i < 6; i++ {
 		b := net.add(fmt.Sprintf("h%d", i), hostOf(i), "")
 		b.probeMode = []string{"ok", "ok", "conn", "status", "slow"}[c.Intn(5, "probemode")]
